@@ -46,9 +46,11 @@ def topological_sort(source):
             graph.setdefault(parent, []).append(child)
             num_parents[child] += 1
 
-    # Begin with the parent-less items.
+    # Begin with the parent-less items: the keys of `source` without parents,
+    # then the parents that are not keys of `source` themselves (a parent-less
+    # key that is also somebody's parent must not be seeded a second time).
     result = [child for child, parents in source.items() if len(parents) == 0]
-    result.extend([item for item in graph if num_parents[item] == 0])
+    result.extend([item for item in graph if item not in source])
 
     # Descend through graph, removing parents as we go.
     for parent in result:
